@@ -56,7 +56,16 @@ pub fn to_flat<T: Serialize>(v: &T) -> Result<FlatOut, FlatErr> {
 
 /// decode one value from the front of `input`; returns it with the number of bytes consumed
 pub fn from_flat<'de, T: de::Deserialize<'de>>(input: &'de [u8]) -> Result<(T, usize), FlatErr> {
-    let mut d = FlatDe { input, pos: 0 };
+    let mut d = FlatDe { input, pos: 0, short_seq: false };
+    let v = T::deserialize(&mut d)?;
+    Ok((v, d.pos))
+}
+
+/// the same, but as a format whose sequences may *end early*: when the input is exhausted at an element boundary the
+/// sequence reports "no more elements" (what a self-describing format does for a record written without its trailing
+/// fields) instead of failing on the missing byte. A decoder that fills absent fields with defaults shows up here.
+pub fn from_flat_short<'de, T: de::Deserialize<'de>>(input: &'de [u8]) -> Result<(T, usize), FlatErr> {
+    let mut d = FlatDe { input, pos: 0, short_seq: true };
     let v = T::deserialize(&mut d)?;
     Ok((v, d.pos))
 }
@@ -183,6 +192,7 @@ impl<'a> ser::SerializeStruct for Compound<'a> {
 pub struct FlatDe<'de> {
     pub input: &'de [u8],
     pub pos: usize,
+    pub short_seq: bool,
 }
 
 struct Seq<'a, 'de> {
@@ -192,7 +202,7 @@ struct Seq<'a, 'de> {
 impl<'a, 'de> SeqAccess<'de> for Seq<'a, 'de> {
     type Error = FlatErr;
     fn next_element_seed<T: DeserializeSeed<'de>>(&mut self, seed: T) -> Result<Option<T::Value>, FlatErr> {
-        if self.left == 0 {
+        if self.left == 0 || (self.de.short_seq && self.de.pos >= self.de.input.len()) {
             return Ok(None);
         }
         self.left -= 1;
